@@ -363,13 +363,31 @@ func Len[T any](ch chan T) int {
 }
 
 // WaitIdle blocks until no task transition is enabled and no foreground timer is armed.
-func WaitIdle() { yield(&op{kind: opIdle}) }
+func WaitIdle() {
+	if G == nil { // free-running pass (race detector): approximate quiescence by real time
+		time.Sleep(20 * time.Millisecond)
+		return
+	}
+	yield(&op{kind: opIdle})
+}
 
 // WaitQuiet blocks until no other task transition is enabled (timers may be armed).
-func WaitQuiet() { yield(&op{kind: opQuiet}) }
+func WaitQuiet() {
+	if G == nil {
+		time.Sleep(5 * time.Millisecond)
+		return
+	}
+	yield(&op{kind: opQuiet})
+}
 
 // Yield is a plain scheduling point.
-func Yield() { yield(&op{kind: opYield}) }
+func Yield() {
+	if G == nil {
+		runtime.Gosched()
+		return
+	}
+	yield(&op{kind: opYield})
+}
 
 // Advance lets virtual time pass (a sleep of the calling task).
 func Advance(d time.Duration) { TSleep(d) }
